@@ -422,6 +422,22 @@ func runC16(c *run.Ctx) {
 		}
 		key := ms.SDL(model.SDLOpts{})
 		c.Eval(key, len(ms.Types)+len(ms.Dirs) >= 6)
+		if illFormed == "" && i%4 == 2 {
+			// an extension that makes an already loaded, valid type ill-formed: refused in one document, so it must be
+			// refused as a later load too
+			if ext, what := c16BadExtension(r, ms); ext != "" {
+				one := c16Run(arrangement{"one document", []string{key + "\n" + ext}})
+				two := c16Run(arrangement{"base, then the extension", []string{key, ext}})
+				c.Bucket("steering", "late-ill-formed-extension:"+what)
+				c.Count("arrangements_loaded", 2)
+				if one.accepted != two.accepted {
+					c.Violation("c16", map[string]interface{}{"diag": fmt.Sprintf("acceptance differs for an ill-formed extension (%s): one document accepted=%v (%s), as a later load accepted=%v (%s)",
+						what, one.accepted, clip(one.err, 200), two.accepted, clip(two.err, 200)), "same_name_type_and_directive": sameName, "ill_formed_rule": what,
+						"arrangement_a": "one document", "arrangement_b": "base, then the extension", "loads_a": []string{key + "\n" + ext}, "loads_b": []string{key, ext}})
+					continue
+				}
+			}
+		}
 		var first *c16Outcome
 		var firstArr arrangement
 		modes := []int{0, 1, 1, 2, 2, 3, 3, 3, 4, 4}
@@ -460,6 +476,59 @@ func runC16(c *run.Ctx) {
 			break
 		}
 	}
+}
+
+// c16BadExtension writes an extend block that breaks a type-system rule on a type of the (well-formed) set.
+func c16BadExtension(r *rand.Rand, s *model.Schema) (string, string) {
+	var objs, ifaces, inputs, unions, enums []*model.TypeDef
+	for _, t := range s.Types {
+		switch t.Kind {
+		case model.Object:
+			objs = append(objs, t)
+		case model.Interface:
+			ifaces = append(ifaces, t)
+		case model.Input:
+			inputs = append(inputs, t)
+		case model.Union:
+			unions = append(unions, t)
+		case model.Enum:
+			enums = append(enums, t)
+		}
+	}
+	o := objs[r.Intn(len(objs))]
+	switch r.Intn(6) {
+	case 0:
+		for _, it := range ifaces {
+			if !s.Implements(o.Name, it.Name) {
+				missing := false
+				for _, f := range it.Fields {
+					if o.Field(f.Name) == nil {
+						missing = true
+					}
+				}
+				if missing {
+					return fmt.Sprintf("extend type %s implements %s { extZz: Int }", o.Name, it.Name), "implements-without-fields"
+				}
+			}
+		}
+	case 1:
+		if len(inputs) > 0 {
+			return fmt.Sprintf("extend type %s { extZz: %s }", o.Name, inputs[0].Name), "input-type-in-field-position"
+		}
+	case 2:
+		return fmt.Sprintf("extend type %s { __extZz: Int }", o.Name), "reserved-field-name"
+	case 3:
+		if len(unions) > 0 && len(enums) > 0 {
+			return fmt.Sprintf("extend union %s = %s", unions[0].Name, enums[0].Name), "union-non-object-member"
+		}
+	case 4:
+		if len(inputs) > 0 {
+			return fmt.Sprintf("extend input %s { extZz: %s }", inputs[0].Name, o.Name), "output-type-in-input-field-position"
+		}
+	default:
+		return fmt.Sprintf("extend type %s { extZz(a: %s): Int }", o.Name, o.Name), "output-type-in-arg-position"
+	}
+	return "", ""
 }
 
 func firstDiffLong(a, b string) string {
